@@ -63,6 +63,7 @@ def concretise(case, r, seed):
     Qb = twin_canon(Q)
     sigs = gamma.build_sigmap(case, keys, Pb, Qb, r)
     untrusted = {"signatures": sigs, "signed": P}
+    gamma.prime_related(case, keys, sigs, Q)
     if case["uenv"]:
         name, fn = ENV_MALFORMATIONS[case["uenv"] - 1]
         if fn is None:
